@@ -244,7 +244,11 @@ void thresholds(vf::Ctx & c)
   double unit, thrLo, thrHi;
   if (sp.type == RELIABILITY) {
     sp.a = c.s.i("low_64th", 0, 64);
-    sp.b = c.s.i("high_64th", sp.a, 64);     // low <= high (equal allowed: the WARN band is empty)
+    // normally low <= high (equal allowed: the WARN band is empty); "every threshold" also covers a pair given in
+    // reversed order, for which the statement still reads: ERROR below low, else WARN below high, else OK
+    const bool anyOrder = c.s.flag("thresholds_in_any_order", 1, 5);
+    sp.b = c.s.i("high_64th", anyOrder ? 0 : sp.a, 64);
+    if (sp.b < sp.a) {c.label("reliability-low>high");}
     unit = 1.0 / 64; thrLo = sp.a * unit; thrHi = sp.b * unit;
     if (sp.a == sp.b) {c.label("reliability-low==high");}
   } else {
